@@ -192,11 +192,11 @@ func C09(c *Ctx) {
 		var operands []ssa.Value
 		if phi, ok := req.(*ssa.Phi); ok {
 			for i, e := range phi.Edges {
-				if expiredSucc.Dominates(phi.Block().Preds[i]) || phi.Block().Preds[i] == expiredSucc {
+				if Dominates(expiredSucc, phi.Block().Preds[i]) || phi.Block().Preds[i] == expiredSucc {
 					operands = append(operands, e)
 				}
 			}
-		} else if expiredSucc.Dominates(s.Block()) {
+		} else if Dominates(expiredSucc, s.Block()) {
 			operands = append(operands, req)
 		}
 		if len(operands) == 0 {
@@ -289,7 +289,7 @@ func C09(c *Ctx) {
 	}
 	// live edge must not delete the session
 	for _, op := range c.StateOps(fn) {
-		if (op.Op == "del" || op.Op == "delall") && !expiredSucc.Dominates(op.Call.Block()) {
+		if (op.Op == "del" || op.Op == "delall") && !Dominates(expiredSucc, op.Call.Block()) {
 			r.Bad("C09.live", name, op.String(), posf(c, op.Call), "session deleted outside the expired branch")
 		}
 	}
